@@ -68,10 +68,17 @@ pub fn gen(r: &mut Rng, server_ip_literal: &str, port: u16, idx: u64) -> Req {
     let authority = if with_port { format!("{host}:{port}") } else { host.clone() };
     let mut path = String::new();
     let pk;
-    match r.below(5) {
+    let mut omit_path_in_url = false;
+    match r.below(6) {
         0 => {
             path.push('/');
             pk = "root";
+        }
+        5 => {
+            // "https://host" and "https://host?q": the request path is still "/"
+            path.push('/');
+            omit_path_in_url = true;
+            pk = "empty";
         }
         1 => {
             let total = *r.pick(&[100usize, 700, 1500]);
@@ -112,21 +119,46 @@ pub fn gen(r: &mut Rng, server_ip_literal: &str, port: u16, idx: u64) -> Req {
         Some(q) => format!("{path}?{q}"),
         None => path.clone(),
     };
-    let url = format!("https://{authority}{full_path}");
+    let mut url = if omit_path_in_url { format!("https://{authority}{}", &full_path[1..]) } else { format!("https://{authority}{full_path}") };
+    // a fragment is never part of the request target (RFC 9110 §7.1)
+    let frag = match r.below(4) {
+        0 => {
+            let l = r.usize(0, 12);
+            url.push('#');
+            url.push_str(&rand_from(r, QUERY_CHARS, l));
+            if l == 0 { "empty-fragment" } else { "fragment" }
+        }
+        _ => "nofragment",
+    };
 
     let mut headers = BTreeMap::new();
     let mut hclass = vec![];
     let statics: Vec<(&str, &str)> = STATIC_TABLE.iter().filter(|(n, _)| !n.starts_with(':')).cloned().collect();
-    match idx % 5 {
+    match idx % 6 {
         0 => {}
+        5 => {
+            // static-table name with a value that is *almost* a table value for that name: other
+            // letter case, a prefix, an extension, or the value of another row with the same name
+            let (n, v) = statics[(idx / 6) as usize % statics.len()];
+            let same_name: Vec<&str> = statics.iter().filter(|(m, _)| *m == n).map(|(_, w)| *w).collect();
+            let (nv, how) = match r.below(5) {
+                0 => (v.to_ascii_uppercase(), "upper"),
+                1 => (v.chars().enumerate().map(|(i, c)| if i % 2 == 0 { c.to_ascii_uppercase() } else { c }).collect::<String>(), "mixed-case"),
+                2 => (v[..v.len().saturating_sub(1)].trim_end().to_string(), "prefix"),
+                3 => (format!("{v}x"), "extension"),
+                _ => (same_name[r.usize(0, same_name.len() - 1)].to_string(), "other-row"),
+            };
+            headers.insert(n.to_string(), nv);
+            hclass.push(format!("static-near:{how}"));
+        }
         1 => {
             // exact static-table hit (all rows covered as idx sweeps)
-            let (n, v) = statics[(idx / 5) as usize % statics.len()];
+            let (n, v) = statics[(idx / 6) as usize % statics.len()];
             headers.insert(n.to_string(), v.to_string());
             hclass.push("static-full".to_string());
         }
         2 => {
-            let (n, _) = statics[(idx / 5) as usize % statics.len()];
+            let (n, _) = statics[(idx / 6) as usize % statics.len()];
             let l = boundary_len(r);
             let (v, vk) = value(r, l, idx / 7);
             headers.insert(n.to_string(), v);
@@ -154,7 +186,7 @@ pub fn gen(r: &mut Rng, server_ip_literal: &str, port: u16, idx: u64) -> Req {
     }
     hclass.sort();
     hclass.dedup();
-    let class = format!("{hk}|{}|{pk}|{}|h={}", if with_port { "port" } else { "noport" }, if query.is_some() { "query" } else { "noquery" }, hclass.join(","));
+    let class = format!("{hk}|{}|{pk}|{}|{frag}|h={}", if with_port { "port" } else { "noport" }, if query.is_some() { "query" } else { "noquery" }, hclass.join(","));
     Req { url, authority, path: full_path, headers, class, domain }
 }
 
